@@ -68,6 +68,41 @@ inductive BStep : Nat × Loop α → Nat × Loop α → Prop
   | dropData {k : Nat} {l l' : Loop α} (i : Nat) : l.step (.dropData i) = some l' → BStep (k + 1, l) (k, l')
   | dropAck {k : Nat} {l l' : Loop α} (i : Nat) : l.step (.dropAck i) = some l' → BStep (k + 1, l) (k, l')
 
+/-- `Fair` as a Boolean test -/
+def fairB (l : Loop α) : LAct α → Bool
+  | .own (.wake _) => true
+  | .own .handoff => true
+  | .own (.fire _) => true
+  | .own (.ack _) => false
+  | .own (.tick t) =>
+    l.data.isEmpty && l.acks.isEmpty && decide (l.snd.now < t) &&
+      l.snd.timers.any fun kv => kv.2.live && Num.eqb kv.2.wake t
+  | .deliver => true
+  | .ackArrive => true
+  | .dropData _ => false
+  | .dropAck _ => false
+
+/-- is `a` a loss -/
+def isDrop : LAct α → Bool
+  | .dropData _ => true
+  | .dropAck _ => true
+  | _ => false
+
+/-- run a script as a `BStep` run with loss budget `k`: every action must be accepted and be either fair or a loss
+that the budget still allows -/
+def runB (k : Nat) (l : Loop α) : List (LAct α) → Option (Nat × Loop α)
+  | [] => some (k, l)
+  | a :: rest =>
+    match l.step a with
+    | none => none
+    | some l' =>
+      if fairB l a then runB k l' rest
+      else if isDrop a then
+        match k with
+        | 0 => none
+        | k + 1 => runB k l' rest
+      else none
+
 end Loop
 
 /-- an action that loses nothing -/
